@@ -130,3 +130,10 @@ Example vec_external_sort_inhabited :
   (forall l, Sorted N.le (isort l) /\ Permutation l (isort l)) /\
   vec_external_sort isort 8 16 [5; 2; 8; 1; 9] = [1; 2; 5; 8; 9] /\ vec_external_sort isort 8 64 [5; 2; 8; 1; 9] = [1; 2; 5; 8; 9].
 Proof. split; [intros l; split; [apply isort_sorted|apply isort_perm]|split; vm_compute; reflexivity]. Qed.
+
+(* a 5-byte common prefix is skipped inside the outermost call: 1 level with the skip, 6 without *)
+Example sort_bytes_depth_inhabited :
+  sort_bytes_levels true [[9; 9; 9; 9; 9; 2]; [9; 9; 9; 9; 9; 1]; [9; 9; 9; 9; 9]] = 1%nat /\
+  sort_bytes_levels false [[9; 9; 9; 9; 9; 2]; [9; 9; 9; 9; 9; 1]; [9; 9; 9; 9; 9]] = 6%nat /\
+  sort_bytes [[9; 9; 9; 9; 9; 2]; [9; 9; 9; 9; 9; 1]; [9; 9; 9; 9; 9]] = [[9; 9; 9; 9; 9]; [9; 9; 9; 9; 9; 1]; [9; 9; 9; 9; 9; 2]].
+Proof. repeat split; vm_compute; reflexivity. Qed.
